@@ -480,7 +480,12 @@ def run_replay(prop, path):
         rec = json.load(f)
     ctx = Ctx(prop, rec.get('tier', 'quick'), rec.get('seed', 0), 0, 1,
               replaying=True)
-    mod.replay(ctx, rec['case'])
+    if isinstance(rec['case'], dict) and rec['case'].get(
+            'kind') == 'repotests':
+        from vlib import repotests
+        repotests.run(ctx, prop, [rec['case']['contract']])
+    else:
+        mod.replay(ctx, rec['case'])
     known = findings.load()
     rc = 0
     if not ctx.violations:
